@@ -641,6 +641,52 @@ done:
 	KSI_CTX_free(ctx);
 }
 
+/* (3b') a service that has an endpoint with credentials is pointed at another host by a URI whose embedded user name or key is EMPTY
+ * (no explicit arguments): whatever the library makes of the empty part, a request that then goes to the new host must not bear the
+ * former endpoint's login id nor a MAC under the former endpoint's key */
+static const char *EMPTY_CRED_URI[] = {"ksi+http://:k4@new.example.test/n", "ksi+http://usr5:@new.example.test/n", "ksi+http://:@new.example.test/n", "ksi://:k4@new.example.test/n"};
+#define NEMPTYCRED 4
+static void prior_credentials_case(int r, int ext) {
+	KSI_CTX *ctx = ku_ctx();
+	KSI_DataHash *hsh = NULL;
+	KSI_AggregationReq *areq = NULL;
+	KSI_ExtendReq *ereq = NULL;
+	KSI_RequestHandle *rh = NULL;
+	KSI_Integer *t0 = NULL;
+	unsigned char imp[RH_MAX_IMPRINT];
+	size_t il = ref_fake_imprint(RH_SHA256, 23, imp);
+	int res, set2;
+	if (KSI_DataHash_fromImprint(ctx, imp, il, &hsh) != KSI_OK || KSI_Integer_new(ctx, 1600000000, &t0) != KSI_OK) vf_harness_error("fixtures");
+	g_armed = 1;
+	res = ext ? KSI_CTX_setExtender(ctx, "ksi+http://prior.example.test/p", "prior-user", "prior-key") : KSI_CTX_setAggregator(ctx, "ksi+http://prior.example.test/p", "prior-user", "prior-key");
+	if (res != KSI_OK) vf_harness_error("prior endpoint refused");
+	set2 = ext ? KSI_CTX_setExtender(ctx, EMPTY_CRED_URI[r], NULL, NULL) : KSI_CTX_setAggregator(ctx, EMPTY_CRED_URI[r], NULL, NULL);
+	O.impl_calls += 2;
+	vf_outcome("empty-credentials:second-call-%s", set2 == KSI_OK ? "accepted" : "refused");
+	if (ext) { if (KSI_createExtendRequest(ctx, t0, NULL, &ereq) != KSI_OK) vf_harness_error("createExtendRequest"); res = KSI_sendExtendRequest(ctx, ereq, &rh); }
+	else { if (KSI_createSignRequest(ctx, hsh, 0, &areq) != KSI_OK) vf_harness_error("createSignRequest"); res = KSI_sendSignRequest(ctx, areq, &rh); }
+	if (res == KSI_OK) res = KSI_RequestHandle_perform(rh);
+	O.impl_calls += 2;
+	vf_obs("r=%x n=%d url=%s", set2, O.n_http, O.url);
+	if (O.n_http > 0 && strstr(O.url, "new.example.test") != NULL && O.body.n > 0) {
+		const char *login = NULL;
+		rtlv mac;
+		char why[200];
+		if (pdu_open(O.body.p, O.body.n, ext ? 0x320 : 0x220, &login, &mac, why, sizeof why) == 0) {
+			if (login != NULL && strcmp(login, "prior-user") == 0)
+				report("former-credentials-on-new-endpoint", "%s given after an endpoint with credentials: the request to '%s' bears the former endpoint's login id", EMPTY_CRED_URI[r], O.url);
+			if (mac_ok(O.body.p, O.body.n, &mac, "prior-key"))
+				report("former-credentials-on-new-endpoint", "%s given after an endpoint with credentials: the request to '%s' is authenticated with the former endpoint's key", EMPTY_CRED_URI[r], O.url);
+			vf_outcome("empty-credentials:request-to-new-host-checked");
+		}
+	} else vf_outcome("empty-credentials:no-request-to-new-host");
+	g_armed = 0;
+	KSI_RequestHandle_free(rh);
+	KSI_AggregationReq_free(areq); KSI_ExtendReq_free(ereq);
+	KSI_DataHash_free(hsh); KSI_Integer_free(t0);
+	KSI_CTX_free(ctx);
+}
+
 /* (3c) file transport re-pointed after it has served requests: the following requests are answered from the file configured NOW */
 static void file_switch_case(int ext) {
 	KSI_CTX *ctx = ku_ctx();
@@ -789,6 +835,16 @@ static void run(void) {
 			if (!vf_case_begin("after-refused:pr%d:r%d:%s", pr, r, ext ? "extender" : "aggregator")) continue;
 			reset_seam();
 			after_refused_case(pr, r, ext);
+			vf_count("impl_calls", O.impl_calls);
+			vf_case_end(1);
+		}
+	}
+	{
+		int r, ext;
+		for (r = 0; r < NEMPTYCRED; r++) for (ext = 0; ext < 2; ext++) {
+			if (!vf_case_begin("empty-credentials:r%d:%s", r, ext ? "extender" : "aggregator")) continue;
+			reset_seam();
+			prior_credentials_case(r, ext);
 			vf_count("impl_calls", O.impl_calls);
 			vf_case_end(1);
 		}
